@@ -260,7 +260,8 @@ def c06(v, tier, seed):
     q = tier == "quick"
     lens = list(range(0, 65))
     for scn, ls, nbg in (("create", lens, 2 if q else 3), ("split", lens if not q else list(range(0, 13)) + [31, 32, 33, 63, 64], 1 if q else 2),
-                         ("long", list(range(65, 2029, 1 if not q else 37)) + [2027, 2028], 1)):
+                         ("long", list(range(65, 2029, 1 if not q else 37)) + [2027, 2028], 1),
+                         ("create", [65, 100, 255, 256, 257, 1000, 2027, 2028] if q else [65, 66, 67, 100, 127, 128, 255, 256, 257, 511, 512, 1000, 1023, 1024, 2025, 2026, 2027, 2028], 1)):
         kinds = ["full", "brief"]
         if scn == "long": ls = [x for x in ls if x <= 2028]
         res = run_tlc("GenCan", can.cfg(scn, ls, kinds, nbg), wd)
@@ -495,7 +496,7 @@ def c14(v, tier, seed):
     # (2) the crossed build (big-endian helper set on little-endian memory) follows GenericImpl(LE, BE)
     shape_sweep(v, wd, ex_x, "C14", rnd, q, "crossed", "LE", "BE")
     groups = [ALL_VIEWS[i::3] for i in range(3)] if q else [[x] for x in ALL_VIEWS]
-    for scn in ("fields", "init", "can", "vss"):
+    for scn in ("fields", "init", "can", "vss", "strarr"):
         for gi, g in enumerate(groups if scn in ("fields", "init") else [ALL_VIEWS[:1]]):
             res = run_tlc("GenX", hostx.x_cfg(scn, g, "LE", "BE"), wd)
             v.add_tlc("GenX/%s[%d]" % (scn, gi), res)
@@ -503,6 +504,7 @@ def c14(v, tier, seed):
             vecs = res.emitted
             for x in vecs:
                 x.setdefault("path", "generic"); x.setdefault("id", ""); x.setdefault("rc", 0); x.setdefault("out", [165, 90] * 4)
+                if isinstance(x.get("ret"), list) and scn == "vss": x["ret"] = from64(x["ret"])
             if scn in ("fields", "init"):
                 full = []
                 for x in vecs:
@@ -512,6 +514,8 @@ def c14(v, tier, seed):
                 st = pdu.replay(v, ex_x, bind, full, "C14", tier, rnd)
             elif scn == "can":
                 st = can.replay(v, ex_x, [dict(x, ret=(len(x["post"]) - 5 if x["kind"] == "brief" else 0)) for x in vecs], rnd)
+            elif scn == "strarr":
+                st = vss.sa_replay(v, ex_x, vecs, tag="crossed ")
             else:
                 st = vss.replay(v, ex_x, vecs, rnd)
             v.cov["evaluations"] += st["executed"]; v.cov["replayed_transitions"] += len(vecs)
@@ -790,6 +794,14 @@ def c19(v, tier, seed):
         with lock: v.add_tlc("GenTunnel tscf=%d udp=%d fd=%d count=%d" % (tscf, udp, fd, count), res)
         if not res.ok: raise Infra("CanTunnel reference machine not transparent:\n" + (res.violation or "")[-1200:])
         scns = res.emitted
+        if count == 1:
+            # the talker keeps running: two consecutive packets from one talker process
+            res2 = run_tlc("GenTunnel", tunnel_cfg(tscf, udp, fd, count, npackets=2, lens=lens[:2] if q else lens[:3]), wd, workers=2, heap="3g")
+            with lock: v.add_tlc("GenTunnel tscf=%d udp=%d fd=%d count=1 packets=2" % (tscf, udp, fd), res2)
+            if not res2.ok: raise Infra("CanTunnel reference machine not transparent:\n" + (res2.violation or "")[-1200:])
+            extra = res2.emitted
+            if len(extra) > (150 if q else 1500): extra = random.Random(seed + 77).sample(extra, 150 if q else 1500)
+            scns = scns + extra
         rr = random.Random(seed * 1000 + tscf * 8 + udp * 4 + fd * 2 + count)
         if q and len(scns) > 400:
             scns = rr.sample(scns, 400)
@@ -798,21 +810,24 @@ def c19(v, tier, seed):
         ll, meta = [], []
         for s, r in zip(scns, tres):
             pk = [p for seg in r["outs"] for p in seg]
-            if r["status"] != "ok" or len(pk) != 1:
-                with lock: v.violation(tunnel_key(s, "talker-run"), "talker did not produce exactly one packet (%s, %d packets) for %s" % (r["status"], len(pk), json.dumps(s)[:300]), {"scenario": s})
+            npk = len(s["frames"]) // count
+            if r["status"] != "ok" or len(pk) != npk:
+                with lock: v.violation(tunnel_key(s, "talker-run"), "talker did not produce exactly %d packet(s) (%s, %d packets) for %s" % (npk, r["status"], len(pk), json.dumps(s)[:300]), {"scenario": s})
                 continue
-            ll.append("L %d %d 0 %s" % (udp, fd, pk[0])); meta.append((s, pk[0]))
+            ll.append("L %d %d 0 %s" % (udp, fd, " ".join(pk))); meta.append((s, pk))
         lres, _ = xprog.run_xh(listener, ll) if ll else ([], "")
         evs = []
         for (s, pk), r in zip(meta, lres):
-            if r["status"] != "ok":
-                with lock: v.violation(tunnel_key(s, "listener-run"), "listener %s on the talker's packet for %s" % (r["status"], json.dumps(s)[:300]), {"scenario": s, "packet": pk})
+            if r["status"] != "ok" or len(r["outs"]) < len(pk):
+                with lock: v.violation(tunnel_key(s, "listener-run"), "listener %s on the talker's packet(s) for %s" % (r["status"], json.dumps(s)[:300]), {"scenario": s, "packet": pk})
                 continue
-            frames_out = [xprog.frame_parse(bytes.fromhex(x), fd) for seg in r["outs"] for x in seg]
             evs.append({"e": "reset", "scn": s})
-            for f in s["frames"]: evs.append({"e": "read", "frame": f})
-            evs.append({"e": "send", "packet": unhexs(pk)})
-            evs.append({"e": "deliver", "packet": unhexs(pk), "frames": frames_out})
+            for i, p_ in enumerate(pk):
+                for f in s["frames"][i * count:(i + 1) * count]: evs.append({"e": "read", "frame": f})
+                evs.append({"e": "send", "packet": unhexs(p_)})
+            for i, p_ in enumerate(pk):
+                frames_out = [xprog.frame_parse(bytes.fromhex(x), fd) for x in r["outs"][i]]
+                evs.append({"e": "deliver", "packet": unhexs(p_), "frames": frames_out})
         return mode, evs, scns
     with cf.ThreadPoolExecutor(max_workers=8) as pool:
         for mode, evs, scns in pool.map(run_mode, modes):
